@@ -20,6 +20,11 @@ use std::sync::atomic::{AtomicU32, Ordering};
 use tracing::{error, info, warn};
 
 static USER_ID: AtomicU32 = AtomicU32::new(1);
+
+#[cfg(feature = "iggy_verif")]
+pub(crate) fn verif_reset_user_id() {
+    USER_ID.store(1, Ordering::SeqCst);
+}
 const MAX_USERS: usize = u32::MAX as usize;
 
 impl System {
